@@ -23,6 +23,9 @@ func main() {
 	} else if len(os.Args) > 3 && (os.Args[3] == "negif" || os.Args[3] == "guard") {
 		ov, n, err = sweep.RestructureOverlay(repo, os.Args[3])
 		what = "restructured statements"
+	} else if len(os.Args) > 3 && os.Args[3] == "msg" {
+		ov, n, err = sweep.MessageOverlay(repo)
+		what = "reworded messages"
 	} else if len(os.Args) > 3 && os.Args[3] == "hoist" {
 		ov, n, err = sweep.HoistOverlay(repo)
 		what = "hoisted call arguments"
